@@ -325,8 +325,21 @@ class Interp:
         self.modules[name] = m
         fr = Frame(None, m.ns, [], m, None)
         self.frames.append(fr)
+        m.load_problems = []
         try:
-            self.exec_block(tree.body, fr)
+            for st in tree.body:
+                try:
+                    self.exec_stmt(st, fr)
+                except Unsupported as e:
+                    # a top-level statement outside the subset: the names it
+                    # binds become opaque (using them is Unsupported later);
+                    # the rest of the module is still loaded
+                    names = _assigned_names(ast.Module(body=[st],
+                                                       type_ignores=[]))
+                    for n in names:
+                        m.ns.setdefault(n, Opaque('%s.%s (not loaded: %s)'
+                                                  % (name, n, e)))
+                    m.load_problems.append((st.lineno, str(e)))
         finally:
             self.frames.pop()
         return m
@@ -483,10 +496,20 @@ class Interp:
     def st_FunctionDef(self, st, fr):
         f = self.make_function(st, fr)
         for d in reversed(st.decorator_list):
-            f = self.apply_decorator(self.eval(d, fr), f, st)
+            try:
+                dec = self.eval(d, fr)
+            except Unsupported as e:
+                dec = Opaque('decorator: %s' % e)
+            f = self.apply_decorator(dec, f, st)
         self.store_name(st.name, f, fr)
 
     def apply_decorator(self, dec, f, st):
+        if isinstance(dec, Opaque):
+            # unmodelled decorator: the function is kept, but calling it is
+            # outside the supported subset
+            if isinstance(f, FuncVal):
+                f.unmodelled_decorator = dec.what
+            return f
         return self.call(dec, [f], {})
 
     def make_function(self, node, fr, name=None):
@@ -515,8 +538,9 @@ class Interp:
                 cbases.append(b)
             elif isinstance(b, BuiltinType) and b.host is object:
                 pass
-            elif isinstance(b, Opaque) or b is None:
-                raise Unsupported('class %s: base %r' % (st.name, b))
+            elif isinstance(b, Opaque):
+                # unmodelled base class: its attributes are unavailable
+                pass
             else:
                 raise Unsupported('class %s: base %r' % (st.name, b))
         ns = {}
@@ -1130,6 +1154,9 @@ class Interp:
         return loc
 
     def call_function(self, f, args, kwargs):
+        if getattr(f, 'unmodelled_decorator', None):
+            raise Unsupported('%s is wrapped by an unmodelled decorator (%s)'
+                              % (f.qualname, f.unmodelled_decorator))
         key = (f.module.name if f.module else None, f.qualname)
         stub = self.stubs.get(key)
         if stub is not None:
